@@ -85,6 +85,8 @@ Definition dec_op (s : sexp) : option op :=
   | SL [SA "lock"; p] => option_map OLock (dec_path p)
   | SL [SA "unlock"; p] => option_map OUnlock (dec_path p)
   | SL [SA "names"; n] => option_map ONames (dec_list (dec_opt dec_str) n)
+  | SL [SA "swap"; p; SA k; SA k'] => option_map (fun p => OSwap p k k') (dec_path p)
+  | SL [SA "alias"; p; SA k; SA k'] => option_map (fun p => OAlias p k k') (dec_path p)
   | SL [SA "consolidate"; f] => option_map OConsolidate (dec_bool f)
   | _ => None
   end.
@@ -135,7 +137,8 @@ Definition dispatch (cmd : string) (args : list sexp) : option sexp :=
       match dec_tree t, dec_list dec_op ops with
       | Some t, Some ops =>
           let '(st, outs) := run_trace {| cur := t; snap := None |} ops [] in
-          Some (SL [SL outs; enc_state st; enc_res enc_state (pickle_roundtrip st)])
+          Some (SL [SL outs; enc_state st; enc_res enc_state (pickle_roundtrip st);
+                    enc_bool (match snap st with Some sn => snapshot_current st sn | None => false end)])
       | _, _ => None end
   | "consolidate", [t; f] =>
       match dec_tree t, dec_bool f with
